@@ -870,4 +870,4 @@ def rule_implicit_followers(check, rule, cg=None):
                                 'inside %s at that moment' % (base, last, norm(arg)[:40], IMPLICIT_FOLLOWERS[last], w.cls.name), key=key,
                                 witness='thread A inside the window (f.__wrapped__ set aside), thread B between its own window and this call: '
                                         'B sees another function than when run alone')
-    check.floor(rule, 'implicit followers of __wrapped__/__signature__ in the retrieval closure', n, 2)
+    check.floor(rule, 'implicit followers of __wrapped__/__signature__ in the retrieval closure', n, 1)
